@@ -188,3 +188,59 @@ Example C16_example_callers_deadlock_without_processor_context :
   (exists c c', Callers.run true [Callers.LPause; Callers.LS; Callers.LS; Callers.LCFail] (Callers.init 3%nat) = Some c /\
      Callers.step true Callers.LCCtx c = Some c').
 Proof. split; [exact CallersProofs.ignoring_processor_context_deadlocks|exact CallersProofs.same_state_is_live]. Qed.
+
+(* ---- translated code (round 8): Push / Pull / Close / Reset of pkg/ringbuffer, regenerated from ringbuffer.go on every
+   run as programs of the language of GVL.Imp (coq/gen/Prog.v, tools/go2coq -prog; the mutex / cond calls are ignored
+   there: they are the subject of ConcModel.v and the sync skeleton), ARE the model's rpush / rpull / rclose / rreset, the
+   functions the refinement theorem above is about: same result, same fields, same buffer, the same index-out-of-range /
+   modulo-by-zero panics; for every ring with size, readIndex, writeIndex < 2^63 (Close / Reset: size = len(buffer), as
+   New makes it). [holds .. st r]: the program state st carries exactly the fields of r (items as non-zero handles). *)
+From GVL Require Import Imp.
+From GVG Require Import Prog.
+From GV_ring Require Import RingCode.
+Theorem C16_push_program_is_the_model : forall r x st, wfr r ->
+  holds p_ring_push_v_r_size p_ring_push_v_r_readIndex p_ring_push_v_r_writeIndex p_ring_push_v_r_closed p_ring_push_a_r_buffer st r ->
+  V st p_ring_push_v_data = enc x ->
+  match rpush r x with
+  | PushOk r' => exists st', bs p_ring_push st (ORet [VZ 1%Z] st') /\
+      holds p_ring_push_v_r_size p_ring_push_v_r_readIndex p_ring_push_v_r_writeIndex p_ring_push_v_r_closed p_ring_push_a_r_buffer st' r'
+  | PushFull => exists st', bs p_ring_push st (ORet [VZ 0%Z] st') /\
+      holds p_ring_push_v_r_size p_ring_push_v_r_readIndex p_ring_push_v_r_writeIndex p_ring_push_v_r_closed p_ring_push_a_r_buffer st' r
+  | PushPanic => bs p_ring_push st OPanic
+  end.
+Proof. exact push_program_is_the_model. Qed.
+Print Assumptions C16_push_program_is_the_model.
+
+Theorem C16_pull_program_is_the_model : forall r st, wfr r ->
+  holds p_ring_pull_v_r_size p_ring_pull_v_r_readIndex p_ring_pull_v_r_writeIndex p_ring_pull_v_r_closed p_ring_pull_a_r_buffer st r ->
+  match rpull r with
+  | PullGot x r' => exists st', bs p_ring_pull st (ORet [VZ (enc x); VZ 1%Z] st') /\
+      holds p_ring_pull_v_r_size p_ring_pull_v_r_readIndex p_ring_pull_v_r_writeIndex p_ring_pull_v_r_closed p_ring_pull_a_r_buffer st' r'
+  | PullClosed => exists st', bs p_ring_pull st (ORet [VZ 0%Z; VZ 0%Z] st') /\
+      holds p_ring_pull_v_r_size p_ring_pull_v_r_readIndex p_ring_pull_v_r_writeIndex p_ring_pull_v_r_closed p_ring_pull_a_r_buffer st' r
+  | PullWouldBlock => True
+  | PullPanic => bs p_ring_pull st OPanic
+  end.
+Proof. exact pull_program_is_the_model. Qed.
+Print Assumptions C16_pull_program_is_the_model.
+
+Theorem C16_close_reset_programs_are_the_model : forall r,  wfr r -> rsize r = nlen (rbuf r) ->
+  (forall st, holds p_ring_close_v_r_size p_ring_close_v_r_readIndex p_ring_close_v_r_writeIndex p_ring_close_v_r_closed p_ring_close_a_r_buffer st r ->
+     exists st', bs p_ring_close st (ONormal st') /\
+       holds p_ring_close_v_r_size p_ring_close_v_r_readIndex p_ring_close_v_r_writeIndex p_ring_close_v_r_closed p_ring_close_a_r_buffer st' (rclose r)) /\
+  (forall st, holds p_ring_reset_v_r_size p_ring_reset_v_r_readIndex p_ring_reset_v_r_writeIndex p_ring_reset_v_r_closed p_ring_reset_a_r_buffer st r ->
+     exists st', bs p_ring_reset st (ONormal st') /\
+       holds p_ring_reset_v_r_size p_ring_reset_v_r_readIndex p_ring_reset_v_r_writeIndex p_ring_reset_v_r_closed p_ring_reset_a_r_buffer st' (rreset r)).
+Proof. intros r Hw Hl. split; intros st H; [apply close_program_is_the_model|apply reset_program_is_the_model]; assumption. Qed.
+Print Assumptions C16_close_reset_programs_are_the_model.
+
+(* the programs run: capacity 2, one item queued: Push returns true and advances writeIndex to 0 (wrap); Pull on it returns the item *)
+Example C16_example_ring_programs :
+  exec 30 p_ring_push (mkS [(p_ring_push_v_data, 8%Z); (p_ring_push_v_r_size, 2%Z); (p_ring_push_v_r_readIndex, 0%Z);
+                            (p_ring_push_v_r_writeIndex, 1%Z); (p_ring_push_v_r_closed, 0%Z)] [(p_ring_push_a_r_buffer, [5; 0]%Z)]) =
+    ORet [VZ 1%Z] (mkS [(p_ring_push_v_data, 8%Z); (p_ring_push_v_r_size, 2%Z); (p_ring_push_v_r_readIndex, 0%Z);
+                        (p_ring_push_v_r_writeIndex, 0%Z); (p_ring_push_v_r_closed, 0%Z); (p_ring_push_v_tmp_1, 0%Z)] [(p_ring_push_a_r_buffer, [5; 8]%Z)]) /\
+  (exists st', exec 30 p_ring_pull (mkS [(p_ring_pull_v_r_size, 2%Z); (p_ring_pull_v_r_readIndex, 0%Z); (p_ring_pull_v_r_writeIndex, 0%Z);
+                            (p_ring_pull_v_r_closed, 0%Z)] [(p_ring_pull_a_r_buffer, [5; 8]%Z)]) = ORet [VZ 5%Z; VZ 1%Z] st' /\
+               A st' p_ring_pull_a_r_buffer = [0; 8]%Z /\ V st' p_ring_pull_v_r_readIndex = 1%Z).
+Proof. split; [vm_compute; reflexivity|eexists; split; [vm_compute; reflexivity|split; reflexivity]]. Qed.
